@@ -384,9 +384,10 @@ ODD_NAMES = ["a => b", ": colon", "#hash", "trailing ", "file-id:x", "=> b", "ex
 TEXTS = [b"", b"line\n", b"l1\nl2\nl3\n", b"l1\nchanged\nl3\nl4\n", b"no newline", b"crlf\r\nline\r\n",
          b"\x00\xff\x01binary\n", b"\x00other binary", b"caf\xc3\xa9\n", b"=== modified file 'x'\n--- x\n+++ x\n",
          b"# Begin bundle\n", b"a\n" * 40]
-TARGETS = ["tgt", "tärget", "a b", "../up", "é"]
-MESSAGES = ["msg", "two\nlines", "unicode é 中", "trailing newline\n", " leading", "tab\there", "", "x" * 120]
-COMMITTERS = ["Joe <joe@example.com>", "Jöe Bär <j@x>", "nomail"]
+TARGETS = ["tgt", "t\u00e4rget", "a b", "../up", "\u00e9", "e\u0301 nfd", "trailing ", " lead", "x\\y"]
+MESSAGES = ["msg", "two\nlines", "unicode \u00e9 \u4e2d", "trailing newline\n", " leading", "tab\there", "", "x" * 120,
+            "nfd e\u0301", "trailing blank "]
+COMMITTERS = ["Joe <joe@example.com>", "J\u00f6e B\u00e4r <j@x>", "nomail", "Nfd e\u0301 <n@x> "]
 
 
 def gen_spec(rng, n, fmt, odd=False, ghosts=False, big=False, ml_props=False):
